@@ -2,7 +2,8 @@
 //verif:use store,corehelp,diamondhelp
 //verif:assume crash model: fail-stop stores. The solver picks the mutating store call (over the metadata, label and blob stores together) at which the process dies and whether that call lands; from then on every store call of the dying run fails without effect; third variant: a transient fault - that one call fails without effect and everything else works. Afterwards the stores are revived and the real observers run. Object writes are atomic (object-store contract)
 //verif:assume bundle ids are ksuids: later uploads get larger ids when they start in a later second (the library's contract; the model clock advances on every reading, the native replay waits for the next second)
-//verif:assume history: repository r with one committed bundle (file a, or no file at all) carrying label v1, uploaded through the real code; the interrupted operation is the upload of a second bundle (files a - same content - and b; one entry per index file, or three so that the list goes out in the final partial flush)
+//verif:assume history: repository r with one committed bundle (file a, or no file at all) carrying label v1, uploaded through the real code; the interrupted operation is the upload of a second bundle (files a - same content - and b; one entry per index file, or three so that the list goes out in the final partial flush; thorough: a third file); metadata stores plain or checksum-writing (PutCRC); optionally every metadata write sleeps so that the upload's coordinating goroutine is busy while the next file's blobs are written (one file worker in that variant)
+//verif:assume label re-assignment: label v1 moved from one committed bundle to another, the write dying (landed or not) or failing transiently
 //verif:cover VerifC06CommitCrash commit-interrupted
 //verif:cover VerifC06LabelCrash label-write-lost label-write-landed
 //verif:assume index packer unit: the real fileIndex.Upload (pack, uploadIndex, writeMetadata) with 2 entries per index file (the field is set by the harness; 1000 in production), 0..5 entries, and a transient fault at a solver-chosen index-file write
